@@ -40,9 +40,23 @@ def collect_expr(e, ctx, out):
     if k == "if":
         ct = expr_text(e["cond"]) if e["cond"].get("k") != "letcond" else "let %s = %s" % ("", expr_text(e["cond"]["expr"]))
         # comparisons inside the condition itself carry the other conjuncts of that condition as context
+        names_here = []
         for x in walk(e["cond"]):
             if x.get("k") == "binary" and x["op"] == "==":
                 record(x, ctx + [ct], out)
+                for side in (x["l"], x["r"]):
+                    if lit_str(side) in TAURI_NAMES:
+                        names_here.append(lit_str(side))
+        if names_here:
+            # a branch that tests for an injected type name must accept outright: `return true` (any further condition belongs in the test itself,
+            # where classify_context sees it)
+            body = e["then"]
+            def is_true(x):
+                return x is not None and x.get("k") == "lit" and x["lit"]["t"] == "bool" and x["lit"]["v"] is True
+            plain = (len(body) == 1 and body[0].get("k") == "expr"
+                     and (is_true(body[0]["e"]) or (body[0]["e"].get("k") == "return" and is_true(body[0]["e"].get("expr")))))
+            if not plain:
+                out.append((ctx + [ct, "conditional-accept"], "body", "|".join(sorted(set(names_here))) + ":" + " ".join(expr_text(x) for st in body for x in stmt_exprs(st))[:80]))
         collect_comparisons(e["then"], ctx + [ct], out)
         if e.get("else") is not None:
             collect_expr(e["else"], ctx, out)
@@ -72,6 +86,8 @@ def record(x, ctx, out):
 def classify_context(ctx, fn_lets):
     """bare / bare+generics / tauri::X / tauri::ipc::X from the enclosing conditions"""
     t = " && ".join(ctx)
+    if "conditional-accept" in ctx:
+        return "other:conditional-accept"
     if re.search(r"segments\.len\(\) == 3", t) and '"ipc"' in t:
         return "tauri::ipc::X"
     if re.search(r"segments\.len\(\) == 2", t) and re.search(r'segments\[0\]\.ident == "tauri"', t):
